@@ -185,6 +185,11 @@ func (c *Collection) CreateColumn(columnName string, column Column) error {
 	if c.opts.Capacity > int(capacity) {
 		capacity = uint32(c.opts.Capacity)
 	}
+	c.lock.RLock()
+	if max, ok := c.fill.Max(); ok && max > capacity {
+		capacity = max // rows may sit at offsets beyond the count (sparse fill)
+	}
+	c.lock.RUnlock()
 
 	column.Grow(capacity)
 	c.cols.Store(columnName, columnFor(columnName, column))
